@@ -4,7 +4,8 @@
   2. the repository's own test suite still passes with it,
   3. the demonstration fails with the change and passes without it.
 On success the seed is stored as /verif/seeded/<name>/{patch.diff, demo/, meta.json}.
-usage: confirm_seed.py <Cxx> [2]      (reads /tmp/seed/<Cxx>/out/...)"""
+usage: confirm_seed.py <Cxx> [2|""] [name]   (reads $SEED_BASE/<Cxx>/out/..., default /tmp/seed;
+       name = directory under /verif/seeded, default <Cxx>-a / <Cxx>-b; never overwrites an existing seed)"""
 import json, os, re, shutil, subprocess, sys
 
 W = "/tmp/seedconf"
@@ -17,11 +18,14 @@ def sh(cmd, cwd=W, timeout=1800):
 def main():
     cid = sys.argv[1]
     suf = sys.argv[2] if len(sys.argv) > 2 else ""
-    src = f"/tmp/seed/{cid}/out"
+    src = f"{os.environ.get('SEED_BASE', '/tmp/seed')}/{cid}/out"
     patch = f"{src}/patch{suf}.diff"
     demo = f"{src}/demo{suf}"
     meta = json.load(open(f"{src}/meta{suf}.json"))
-    name = f"{cid}-{'b' if suf else 'a'}"
+    name = sys.argv[3] if len(sys.argv) > 3 else f"{cid}-{'b' if suf else 'a'}"
+    if os.path.exists(f"/verif/seeded/{name}"):
+        print(f"{name}: already exists under /verif/seeded - choose another name")
+        return 1
     if not os.path.isdir(W):
         rc, o = sh(f"git -C /repo worktree add --detach {W} main", cwd="/")
         assert rc == 0, o
